@@ -269,8 +269,8 @@ reg(Spec("C06", "c06_slicing.cpp", needs=("shim", "optable"),
                       "Reset() between the three runs relies on C17 (Reset equals a fresh machine)"]))
 
 reg(Spec("C18", "c18_safety.cpp", needs=("shim", "optable"),
-         cases={"quick": 3000, "thorough": 150000},
-         fuzz={"define": "-DC18_LIBFUZZER", "runs": {"quick": 15000, "thorough": 4000000}, "workers": {"quick": 8, "thorough": 16}, "max_len": 1024},
+         cases={"quick": 3000, "thorough": 60000},
+         fuzz={"define": "-DC18_LIBFUZZER", "runs": {"quick": 15000, "thorough": 1200000}, "workers": {"quick": 8, "thorough": 16}, "max_len": 1024},
          technique="property-based testing (rapidcheck structured op sequences) + coverage-guided fuzzing (libFuzzer, ASan/UBSan) with the same oracle",
          rule="rapidcheck-generated sequences (<=40 ops) on one real Teakra facade built with ASan + UBSan + libstdc++ assertions "
               "(stack-use-after-return detection on): MMIOWrite / MMIORead of any offset (biased to the bound registers) with any "
